@@ -91,6 +91,17 @@ def gen_cases(tier, seed):
         for sh in ([[2], [2, 2]] if T else [[2]]):
             for alpha in ((0.5, 2.0) if not T else (0.5, 1.0, 2.0)):
                 cases.append(dict(kind="prox", prog=prog, shape=sh, alpha=alpha, small=not T))
+    # scale regimes: prox_{alpha g} is equivariant under y -> c y when the parameters of g are scaled with it, so the
+    # unit-scale certificate applied to x/c decides the result; an absolute guard (machine eps added to a norm,
+    # "treat as zero below 1e-8") only shows far from unit scale
+    for prog in LEAVES:
+        if prog["p"] in ("NoOp",):
+            continue
+        for c in (1e-15, 1e-7, 1e8):
+            for dt in ("f64", "c128"):   # (the certificates' boundary tests are not meaningful at single precision)
+                if prog["p"] == "Box" and dt.startswith("c"):
+                    continue
+                cases.append(dict(kind="prox-scale", prog=prog, c=c, dtype=dt))
     for n in (2, 3):
         for alpha in (0.5, 2.0):
             cases.append(dict(kind="psd", n=n, alpha=alpha))
@@ -186,9 +197,85 @@ def lattice(n, cplx, tier_small=False):
     return itertools.product(vals, repeat=n)
 
 
+def build_scaled(prog, shape, c, dt):
+    """Leaf prox with every parameter that carries the scale of x multiplied by c (and the unit-scale certificate)."""
+    import sigpy as sp
+    P = prog["p"]
+    cplx = dt in ("c128", "c64")
+    ndt = {"f64": np.float64, "c128": np.complex128, "f32": np.float32, "c64": np.complex64}[dt]
+    cd = (lambda a: (a.astype(np.complex128) * (1 + 0.5j))) if cplx else (lambda a: a)
+    if P == "L1Reg":
+        return sp.prox.L1Reg(shape, prog["lam"] * c), pc.L1(prog["lam"])
+    if P == "L2Reg":
+        z = cd(_bias(shape, 1)) if prog.get("bias") else None
+        return sp.prox.L2Reg(shape, prog["lam"], y=None if z is None else (c * z).astype(ndt)), pc.L2Sq(prog["lam"], z)
+    if P == "L2Proj":
+        z = cd(_bias(shape, 3)) if prog.get("bias") else 0
+        ax = prog.get("axes")
+        ax = None if ax is None else tuple(ax)
+        return sp.prox.L2Proj(shape, prog["eps"] * c, y=(c * z).astype(ndt) if prog.get("bias") else 0, axes=ax), pc.L2Ball(prog["eps"], z, ax)
+    if P == "LInfProj":
+        b = cd(_bias(shape, 4)) if prog.get("bias") else None
+        return sp.prox.LInfProj(shape, prog["eps"] * c, bias=None if b is None else (c * b).astype(ndt)), pc.LInfBall(prog["eps"], b)
+    if P == "L1Proj":
+        return sp.prox.L1Proj(shape, prog["eps"] * c), pc.L1Ball(prog["eps"])
+    if P == "Box":
+        if prog.get("arr"):
+            lo = -np.abs(_bias(shape, 5)) - 0.25
+            hi = np.abs(_bias(shape, 6)) + 0.5
+            return sp.prox.BoxConstraint(shape, (c * lo).astype(ndt), (c * hi).astype(ndt)), pc.Box(lo, hi)
+        return sp.prox.BoxConstraint(shape, prog["lo"] * c, prog["hi"] * c), pc.Box(prog["lo"], prog["hi"])
+    raise ValueError(P)
+
+
+def run_prox_scale(case, viol):
+    prog, c, dt = case["prog"], case["c"], case["dtype"]
+    shape = [3]
+    cplx = dt in ("c128", "c64")
+    ndt = {"f64": np.float64, "c128": np.complex128, "f32": np.float32, "c64": np.complex64}[dt]
+    single = dt in ("f32", "c64")
+    tol = 2e-5 if single else 1e-8
+    P, Gc = build_scaled(prog, shape, c, dt)
+    site = prog["p"]
+    evals = moved = 0
+    seen = set()
+    for pt in lattice(3, cplx):
+        y1 = np.array(pt, dtype=np.complex128 if cplx else np.float64)
+        y = (c * y1).astype(ndt)
+        y0 = y.copy()
+        x = np.asarray(P(1.0, y))
+        evals += 1
+        if list(x.shape) != shape:
+            viol.append(dict(oracle="output-shape", key=dict(site=site, when="scaled"), detail=str(x.shape)))
+            break
+        xu = x.astype(np.complex128 if cplx else np.float64) / c
+        vu = (y0.astype(np.complex128 if cplx else np.float64) / c - xu) / 1.0
+        d = Gc.defect(xu, vu) if not single else _defect_single(Gc, xu, vu)
+        if not d <= tol and "cert" not in seen:
+            seen.add("cert")
+            viol.append(dict(oracle="optimality-certificate", key=dict(site=site, when="inputs and parameters scaled by %g, %s" % (c, dt)),
+                             detail="y = %g * %s: x/c = %s is not the unit-scale minimiser (defect %.3g); program %s" % (
+                                 c, np.array2string(y1, precision=3), np.array2string(xu, precision=6), d, prog)))
+        if np.abs(xu - y1).max() > 1e-12:
+            moved += 1
+    return dict(states=evals, transitions=evals, traces=evals, nontrivial=moved > 0,
+                outcome="ok" if not viol else "violation:" + viol[0]["oracle"], viol=viol)
+
+
+def _defect_single(Gc, xu, vu):
+    """Single precision moves points by ~1e-7 relative, which can cross the certificates' interior/boundary tests;
+    accept the result if ANY point within 3e-6 of x/c (towards or away from the origin) carries a valid certificate."""
+    best = Gc.defect(xu, vu)
+    for f in (1 - 3e-6, 1 + 3e-6, 1 - 1e-6, 1 + 1e-6):
+        best = min(best, Gc.defect(xu * f, vu + xu * (1 - f)))
+    return best
+
+
 def run_case(case, seed):
     import sigpy as sp
     viol = []
+    if case["kind"] == "prox-scale":
+        return run_prox_scale(case, viol)
     if case["kind"] == "psd":
         return run_psd(case, viol)
     if case["kind"] == "thresh":
